@@ -244,6 +244,7 @@ class UndirectedMultigraph : private LabeledUndirectedGraph<EdgeMultiplicity> {
     void removeVertexFromEdgeList(VertexIndex vertex) {
         assertVertexInRange(vertex);
 
+        const Successors formerNeighbours = BaseClass::adjacencyList[vertex];
         Successors::iterator j;
         for (VertexIndex i : *this) {
             j = BaseClass::adjacencyList[i].begin();
@@ -258,6 +259,8 @@ class UndirectedMultigraph : private LabeledUndirectedGraph<EdgeMultiplicity> {
                     ++j;
                 }
         }
+        for (const VertexIndex &neighbour : formerNeighbours)
+            BaseClass::edgeLabels.erase(orderedEdge(vertex, neighbour));
     }
 
     /// @copydoc DirectedMultigraph::clearEdges
